@@ -550,7 +550,7 @@ func contention(dir, scenario string, delayMs int) (o contObs) {
 	switch scenario {
 	case "poll-while-wake-holds-lock":
 		go func() { wakeErr = mgr.Wake(); mu.Lock(); o.LogAtWake = len(log); mu.Unlock(); close(wakeDone) }()
-		if !wait(wakeEntered, "OnWake entry", 2*time.Second) {
+		if !wait(wakeEntered, "OnWake entry", 10*time.Second) {
 			close(wakeGate)
 			return
 		}
@@ -560,11 +560,11 @@ func contention(dir, scenario string, delayMs int) (o contObs) {
 			runtimeGosched()
 		}
 		close(wakeGate)
-		wait(wakeDone, "Wake return", 2*time.Second)
-		wait(pollDone, "Poll return", 2*time.Second)
+		wait(wakeDone, "Wake return", 10*time.Second)
+		wait(pollDone, "Poll return", 10*time.Second)
 	case "wake-during-poll-end":
 		go func() { mgr.Poll(); close(pollDone) }()
-		if !wait(endEntered, "OnPollEnd entry", 2*time.Second) {
+		if !wait(endEntered, "OnPollEnd entry", 10*time.Second) {
 			close(endGate)
 			close(wakeGate)
 			return
@@ -574,19 +574,19 @@ func contention(dir, scenario string, delayMs int) (o contObs) {
 		select {
 		case <-wakeEntered:
 			close(wakeGate)
-			wait(wakeDone, "Wake return", 2*time.Second)
+			wait(wakeDone, "Wake return", 10*time.Second)
 			time.Sleep(time.Duration(delayMs) * time.Millisecond)
 			close(endGate)
 		case <-time.After(time.Duration(5+delayMs) * time.Millisecond):
 			close(endGate)
-			if wait(wakeEntered, "OnWake entry", 2*time.Second) {
+			if wait(wakeEntered, "OnWake entry", 10*time.Second) {
 				close(wakeGate)
 			} else {
 				close(wakeGate)
 			}
-			wait(wakeDone, "Wake return", 2*time.Second)
+			wait(wakeDone, "Wake return", 10*time.Second)
 		}
-		wait(pollDone, "Poll return", 2*time.Second)
+		wait(pollDone, "Poll return", 10*time.Second)
 	}
 	time.Sleep(5 * time.Millisecond)
 	if wakeErr != nil {
